@@ -30,24 +30,45 @@ def handlerParts (names : List Name) (s : Script) : List String :=
       | .error e => "error:" ++ e.replace " " "_"
     str h.toSX.render ++ "\t" ++ code
 
-/-- read a script leniently: a handler the reference grammar rejects becomes `none`, the others are still read -/
-def splitHandlers : List Tok → List Tok → List (List Tok)
+/-- split text into lines -/
+def splitLines : List Char → List Char → List (List Char)
   | [], cur => [cur.reverse]
-  | .nl :: t :: r, cur =>
-    if isHandlerStart t then cur.reverse :: splitHandlers r [t] else splitHandlers (t :: r) (.nl :: cur)
-  | t :: r, cur => splitHandlers r (t :: cur)
+  | c :: r, cur => if c == '\n' then cur.reverse :: splitLines r [] else splitLines r (c :: cur)
 
-def readLoose (ts : List Tok) : Option (Script × List (Option Handler) × List Name) :=
-  let fuel := 4 * ts.length + 16
-  match pHeader fuel ts { factory := [], props := [], globals := [], handlers := [] } with
-  | some (s, r) =>
-    let props := s.props ++ declared "instance" (.nl :: r)
-    let se : ScriptEnv := { props, globals := s.globals, handlers := handlerNames (.nl :: r) }
-    let parts := (splitHandlers (.nl :: skipNl r) []).filter fun p => (skipNl p) ≠ []
-    let hs := parts.map fun p => (pHandler se fuel (skipNl p)).bind fun (h, rest) => if skipNl rest = [] then some h else none
-    let names := parts.map fun p => match skipNl p with | _ :: .id n :: _ => n | _ => []
-    some ({ s with props, handlers := hs.filterMap id }, hs, names)
-  | none => none
+def firstWord (l : List Char) : List Char := (l.dropWhile (· == ' ')).takeWhile isIdChar
+
+def startsHandler (l : List Char) : Bool :=
+  let w := lowerName (firstWord l)
+  w == "on".toList || w == "method".toList
+
+/-- header lines, then one chunk of lines per handler -/
+def chunkLines : List (List Char) → List (List Char) → List (List (List Char)) → List (List (List Char))
+  | [], cur, acc => (cur.reverse :: acc).reverse
+  | l :: r, cur, acc => if startsHandler l then chunkLines r [l] (cur.reverse :: acc) else chunkLines r (l :: cur) acc
+
+def joinLines (ls : List (List Char)) : List Char := ls.flatMap fun l => l ++ ['\n']
+
+/-- read a script leniently (driver only): the text is cut into handlers first, so that a handler the reference lexer or
+    grammar rejects becomes `none` while the others are still read -/
+def readLoose (text : List Char) : Option (Script × List (Option Handler) × List Name) :=
+  match chunkLines (splitLines text []) [] [] with
+  | [] => none
+  | hdrLines :: chunks =>
+    match lex (joinLines hdrLines) with
+    | none => none
+    | some hts =>
+      match pHeader (4 * hts.length + 16) hts { factory := [], props := [], globals := [], handlers := [] } with
+      | some (s, rest) =>
+        if skipNl rest ≠ [] then none else
+        let toks := chunks.map fun c => lex (joinLines c)
+        let names := chunks.map fun c => match c with | l :: _ => firstWord ((l.dropWhile (· == ' ')).dropWhile isIdChar) | [] => []
+        let allToks := toks.flatMap fun t => match t with | some ts => .nl :: ts | none => []
+        let props := s.props ++ declared "instance" allToks
+        let se : ScriptEnv := { props, globals := s.globals, handlers := names }
+        let hs := toks.map fun t => t.bind fun ts =>
+          (pHandler se (4 * ts.length + 16) ts).bind fun (h, rest) => if skipNl rest = [] then some h else none
+        some ({ s with props, handlers := hs.filterMap id }, hs, names)
+      | none => none
 
 /-- commands of the `lspec` family (see harness/lingo_gen.py) -/
 def run : List String → Option String
@@ -70,7 +91,7 @@ def run : List String → Option String
     let n ← parseNat scrNum
     let pre ← namesOfSX (← SX.parse (← charsOfHex hnames))
     let text ← charsOfHex htext
-    match lex text with
+    match some text with
     | none => some "error lex"
     | some ts =>
       match readLoose ts with
